@@ -660,6 +660,148 @@ def with_queries(plan, names, every=True):
     return out
 
 
+# ------------------------------------------------------------------ size stress (notes/SIZE_STRESS.md part 1)
+
+class BigConc:
+    """one model name -> MANY real names (a package of the model becomes up to 10 000 packages that
+    carry the same tags, a tag up to 1 000 tags), names padded up to 4 KiB.  Every operation of the
+    model commutes with this blow-up, so TLC's expected states / query tables of the abstract case
+    give the expected big collection (length- and count-independent by construction).  Used only on
+    behaviours without insert / facet_collection (where the known insert deviation cannot occur)."""
+
+    def __init__(self, base, counts, pad):
+        self.base, self.counts, self.pad = base, {tuple(k): v for k, v in counts}, pad
+        self._cache = {}
+
+    def blow(self, seq):
+        t = tuple(seq)
+        r = self._cache.get(t)
+        if r is None:
+            stem = self.base.name(t)
+            n = self.counts.get(t, 1)
+            r = self._cache[t] = frozenset("%s%s~%d" % (stem, "=" * max(0, self.pad - len(stem) - len(str(i)) - 1), i)
+                                           for i in range(n))
+        return r
+
+    def names(self, seqs):
+        out = set()
+        for q in seqs:
+            out |= self.blow(q)
+        return out
+
+    def name(self, seq):
+        return sorted(self.blow(seq))[0]
+
+    def to_json(self):
+        return {"base": self.base.to_json(), "counts": [[list(k), v] for k, v in self.counts.items()], "pad": self.pad}
+
+    @classmethod
+    def from_json(cls, j):
+        return cls(Conc.from_json(j["base"]), j["counts"], j["pad"])
+
+
+def compare_big(cur, s, table, bc, rng, who=""):
+    """the big collection against the blow-up of TLC's state and query table"""
+    db, rdb, bad = proj(cur)
+    if bad:
+        return who + bad
+    names = [tuple(n) for n in table["names"]]
+    tags_of = {n: table["tagsOf"][i] for i, n in enumerate(names)}
+    pkgs_of = {n: table["pkgsOf"][i] for i, n in enumerate(names)}
+    P, T = bc.names(s["P"]), bc.names(s["T"])
+    if set(db) != P:
+        return "%spackages (keys of db): %d, model (blown up) %d; e.g. %s" % (who, len(db), len(P), short(sorted(set(db) ^ P)[:3], 200))
+    if set(rdb) != T:
+        return "%stags (keys of rdb): %d, model (blown up) %d; e.g. %s" % (who, len(rdb), len(T), short(sorted(set(rdb) ^ T)[:3], 200))
+    alias = rng.random() < 0.5
+    try:
+        if meth(cur, "package_count", alias)() != len(P) or meth(cur, "tag_count", alias)() != len(T):
+            return "%spackage_count()/tag_count() = %r/%r, model (blown up) %d/%d" % (
+                who, cur.package_count(), cur.tag_count(), len(P), len(T))
+        for p in s["P"]:
+            want = bc.names(tags_of[tuple(p)])
+            for c in bc.blow(p):
+                if db[c] != want:
+                    return "%sdb[%s] has %d tags, model (blown up) %d" % (who, short(c, 80), len(db[c]), len(want))
+            c = rng.choice(sorted(bc.blow(p)))
+            if frozenset(meth(cur, "tags_of_package", alias)(c)) != want or not meth(cur, "has_package", alias)(c):
+                return "%stags_of_package/has_package(%s) disagree with the model" % (who, short(c, 80))
+        for t in s["T"]:
+            want = bc.names(pkgs_of[tuple(t)])
+            for c in bc.blow(t):
+                if rdb[c] != want:
+                    return "%srdb[%s] has %d packages, model (blown up) %d" % (who, short(c, 80), len(rdb[c]), len(want))
+            c = rng.choice(sorted(bc.blow(t)))
+            if frozenset(meth(cur, "packages_of_tag", alias)(c)) != want or cur.card(c) != len(want) or not meth(cur, "has_tag", alias)(c):
+                return "%spackages_of_tag/card/has_tag(%s) disagree with the model (card %r, model %d)" % (who, short(c, 80), cur.card(c), len(want))
+        if len(list(meth(cur, "iter_packages", alias)())) != len(P) or len(list(meth(cur, "iter_tags_packages", alias)())) != len(T):
+            return "%siter_packages()/iter_tags_packages() have the wrong number of items" % who
+    except Exception as e:
+        return "%squery methods raised %s" % (who, type(e).__name__)
+    return None
+
+
+BIG_OPS = ("read", "reverse", "copy", "restrict_p", "filter_t", "read_fails", "qread_fails")
+
+
+def big_path(g, rng, length):
+    """a behaviour from DB() over edges that cannot meet the insert deviation, starting with a read
+    of a collection that uses all the model packages"""
+    starts = [e for e in g.out[g.init] if e["op"] == "read" and len(e["to"]["R"]) >= 3 and not e["s"]]
+    path = [rng.choice(starts)]
+    for _ in range(length):
+        outs = [e for e in g.out[path[-1]["_t"]] if e["op"] in BIG_OPS and (e["op"] != "read" or rng.random() < 0.2)]
+        w = [4 if e["_f"] != e["_t"] and e["to"]["R"] else 1 for e in outs]
+        path.append(rng.choices(outs, weights=w)[0])
+    return path
+
+
+def replay_big(path, tables, bc, rng):
+    """like replay_path for a blown-up concretization; returns None or a message"""
+    from debian import debtags
+    cur = debtags.DB()
+    srcobj, srcedge = None, None
+    junk = list(JUNK)
+    for i, e in enumerate(path):
+        st = concretize_step(e, bc, rng, junk)
+        if st["op"] in ("read", "qread") and rng.random() < 0.5:
+            st["text"] = regroup(st["text"], rng)
+        before = cur
+        cur, exc = do_call(cur, st)
+        where = "step %d %s (%d packages, %d tags in the collection): " % (i + 1, st["op"], len(getattr(cur, "db", ())), len(getattr(cur, "rdb", ())))
+        if st["op"] in ("read_fail", "qread_fail"):
+            if not exc:
+                return where + "the injected exception did not propagate"
+            if compare_big(cur, e["to"], tables[skey_state(e["to"])], bc, rng) is not None and \
+                    any(compare_big(cur, a, tables[skey_state(a)], bc, rng) is None for a in e["allowed"] if skey_state(a) in tables):
+                return None
+        elif exc:
+            return where + "raised %s" % exc
+        if st["op"] in COPY_OPS:
+            srcobj, srcedge = before, e
+        m = compare_big(cur, e["to"], tables[skey_state(e["to"])], bc, rng)
+        if m is None and srcobj is not None:
+            m = compare_big(srcobj, srcedge["from"], tables[skey_state(srcedge["from"])], bc, rng, "the SOURCE of the copy changed: ")
+        if m:
+            return where + m
+    return None
+
+
+def regroup(text, rng):
+    """the same records with the packages of a line split into chunks of boundary sizes"""
+    out = []
+    for line in text:
+        if ": " in line and ", " in line.split(": ", 1)[0] and line.strip():
+            pk, rest = line.split(": ", 1) if ":" in line else (line, "")
+            names = pk.split(", ")
+            size = rng.choice((1, 2, 3, 16, 17, 100, 255, 256, 257, 1000))
+            for i in range(0, len(names), size):
+                out.append("%s: %s" % (", ".join(names[i:i + size]), rest))
+        else:
+            out.append(line)
+    return out
+
+
 # ------------------------------------------------------------------ TLC as judge of recorded histories
 
 def corrupt(t, how):
@@ -1158,6 +1300,32 @@ def run(ctx):
         path = g.walk(rng, g.init, wlen, weight=lambda x: w8[x["op"]] * (3 if x["_f"] != x["_t"] or x["op"].endswith("_fails") else 1))
         one(path, concs[w % len(concs)], True, "walk")
         ctx.case_seen(("walk", w), True)
+    # 2b'. size stress through the replay leg: blown-up concretizations of abstract behaviours
+    shapes = [dict(np=3334, nt=3, pad=0), dict(np=11, nt=334, pad=0), dict(np=40, nt=5, pad=4096),
+              dict(np=257, nt=33, pad=129), dict(np=1000, nt=17, pad=0), dict(np=2, nt=1001, pad=33)]
+    nbig = 3 if quick else 18
+    bigs = []
+    for b in range(nbig):
+        if nviol[0] >= 5:
+            break
+        shape = shapes[(b + ctx.seed) % len(shapes)]
+        brng_seed = rng.randrange(1 << 30)
+        import random as _random
+        path = big_path(g, _random.Random(brng_seed), 4 if quick else 6)
+        brng = _random.Random(brng_seed + 1)
+        names = {tuple(n) for e in path for n in e["to"]["P"] + e["to"]["T"] + e["from"]["P"] + e["from"]["T"]}
+        pk_like = {n for n in names if 0 not in n}
+        counts = [[list(n), (shape["np"] if n in pk_like else shape["nt"]) + (i % 3)] for i, n in enumerate(sorted(names))]
+        bc = BigConc(concs[1 + b % 17], counts, shape["pad"])
+        msg = replay_big(path, tables, bc, brng)
+        n_replayed += 1
+        bigs.append(dict(shape, steps=[e["op"] for e in path]))
+        ctx.case_seen(("big", b), True)
+        if msg:
+            nviol[0] += 1
+            ctx.violation({"kind": "big", "path": [strip_edge(e) for e in path], "tables": {skey_state(x): tables[skey_state(x)] for e in path for x in [e["from"], e["to"]] + e.get("allowed", []) if skey_state(x) in tables},
+                           "bigconc": bc.to_json(), "seed": brng_seed, "length": len(path) - 1}, "size-stressed behaviour %r: %s" % (shape, msg))
+    ctx.extra["size_stress_cases"] = bigs
     ctx.extra["behaviours_replayed"] = n_replayed
     ctx.extra["replayed_last_call_per_method"] = called
     ctx.extra["behaviours_diverged"] = len(diverged)
@@ -1271,7 +1439,7 @@ def replay(ctx, case):
     import random
     quiet_deprecations()
     known_open = ctx.known_open(KNOWN)
-    plan = case["plan"]
+    plan = case.get("plan")
     if case["kind"] == "path":
         conc = Conc.from_json(case["conc"])
         junk = list(JUNK)
@@ -1289,6 +1457,8 @@ def replay(ctx, case):
         if not devsteps.get(1):
             raise core.MachineryError("replay diverged (%s) but TraceDebtags accepts the history without deviation" % d[1])
         return None          # exactly the open known finding
+    if case["kind"] == "big":
+        return replay_big(case["path"], case["tables"], BigConc.from_json(case["bigconc"]), random.Random(case["seed"] + 1))
     if case["kind"] == "trace":
         events, problem = execute(plan)
         if problem:
